@@ -241,6 +241,15 @@ def apply_sampler(m, pl, rng, history, depth):
                   "reserved2", "name", "start_pos"):
             setattr(s, f, sd[f])
         m.samples[i] = s
+    if pl["samples"] and rng.random() < 0.12:
+        # one Sample OBJECT serving two slots (a shared fallback sample); the description gets the second slot too
+        src = rng.choice(sorted(pl["samples"]))
+        free = [i for i in range(128) if i not in pl["samples"]]
+        if free:
+            dst = rng.choice(free)
+            m.samples[dst] = m.samples[src]
+            pl["samples"][dst] = dict(pl["samples"][src])
+            history.append(("sample-object-shared", src, dst))
     apply_envelope(m.volume_envelope, pl["volume_envelope"])
     apply_envelope(m.panning_envelope, pl["panning_envelope"])
     apply_envelope(m.pitch_envelope, pl["pitch_envelope"])
